@@ -373,7 +373,7 @@ type vfC10Sys struct {
 	ds      *vfC10DS
 	g       atomic.Pointer[conngater.BasicConnectionGater]
 	infl    *vfC10Call
-	must    map[string]string // ledger: in | out | free
+	must    map[string]string // ledger: in | out | never | free
 	reopens int
 	res     *vfh.Result
 	forms   []vfC10Form
@@ -385,6 +385,11 @@ type vfC10Sys struct {
 	prefix []vfh.Op
 	// attempt in progress (replay of interleaved consultations)
 	att *vfC10Att
+	// the gate matrix is evaluated completely whenever the rule set may have changed, and one rotating
+	// eighth of the address forms otherwise
+	lastListed string
+	forceFull  bool
+	matchMemo  map[string][]string
 }
 
 type vfC10Att struct {
@@ -411,7 +416,7 @@ func vfC10NewSys(conf *vfC10Conf, res *vfh.Result, forms []vfC10Form, seed uint6
 	s.raw = dssync.MutexWrap(datastore.NewMapDatastore())
 	s.ds = &vfC10DS{inner: s.raw}
 	for _, r := range conf.rules() {
-		s.must[r] = "out"
+		s.must[r] = "never" // never blocked; "out" = an Unblock returned success (what the statement speaks about)
 	}
 	g, err := conngater.NewBasicConnectionGater(s.ds)
 	if err != nil {
@@ -874,6 +879,9 @@ func (s *vfC10Sys) checkUp(g *conngater.BasicConnectionGater, st vfC10State) {
 		}
 	}
 	// every gate function once per argument
+	lk := fmt.Sprint(listed)
+	full := s.forceFull || lk != s.lastListed
+	s.lastListed, s.forceFull = lk, false
 	ids := vfC10Ids()
 	peers := []string{"p2", "p3", "p6", "px"}
 	peerDial, secIn := map[string]bool{}, map[string]bool{}
@@ -898,62 +906,93 @@ func (s *vfC10Sys) checkUp(g *conngater.BasicConnectionGater, st vfC10State) {
 	if ok, _ := g.InterceptUpgraded(nil); !ok {
 		s.mismatch("L2:gate:upgraded", "InterceptUpgraded refused", true, false)
 	}
-	addrDial := make([]bool, len(s.forms))
-	accept := make([]bool, len(s.forms))
-	for i, f := range s.forms {
-		pid := ids[peers[(i+s.step+1)%len(peers)]].id // the peer argument is not looked at by the model's gate
-		addrDial[i] = g.InterceptAddrDial(pid, f.addr)
-		accept[i] = g.InterceptAccept(vfC10Stub{vfC10Local, f.addr})
-		want := !s.modelIPBlocked(st.Mem, f.ip)
-		if addrDial[i] != want {
-			s.mismatch("L2:gate:addrdial:"+f.class, fmt.Sprintf("InterceptAddrDial(%s)=%v, model mem %v", f.text, addrDial[i], st.Mem), want, addrDial[i])
-		}
-		if accept[i] != want {
-			s.mismatch("L2:gate:accept:"+f.class, fmt.Sprintf("InterceptAccept(remote %s)=%v, model mem %v", f.text, accept[i], st.Mem), want, accept[i])
-		}
+	// what the ledger obliges per (peer, ip): first blocked rule, or "" / whether anything is undetermined
+	type obl struct {
+		in   string
+		free bool
+		out  bool // some matching rule was unblocked with success
 	}
-	s.res.Inc("gate_calls", 3*len(peers)+1+2*len(s.forms))
-	// the statement's clauses per (peer, address form, direction), from the ledger only
-	for _, p := range peers {
-		for i, f := range s.forms {
-			match := s.conf.matching(p, f.ip)
-			var in, free []string
-			for _, r := range match {
-				switch s.must[r] {
-				case "in":
-					in = append(in, r)
-				case "free":
-					free = append(free, r)
+	obls := map[string]obl{}
+	oblOf := func(p, ip string) obl {
+		k := p + "|" + ip
+		if o, ok := obls[k]; ok {
+			return o
+		}
+		var o obl
+		for _, r := range s.matching(p, ip) {
+			switch s.must[r] {
+			case "in":
+				if o.in == "" {
+					o.in = r
 				}
+			case "free":
+				o.free = true
+			case "out":
+				o.out = true
 			}
+		}
+		obls[k] = o
+		return o
+	}
+	blockedIP := map[string]bool{}
+	for ip := range vfC10IPs {
+		blockedIP[ip] = s.modelIPBlocked(st.Mem, ip)
+	}
+	n := 0
+	for i, f := range s.forms {
+		if !full && (i+s.step+1)%8 != 0 {
+			continue
+		}
+		n++
+		pid := ids[peers[(i+s.step+1)%len(peers)]].id // the peer argument is not looked at by the model's gate
+		addrDial := g.InterceptAddrDial(pid, f.addr)
+		accept := g.InterceptAccept(vfC10Stub{vfC10Local, f.addr})
+		want := !blockedIP[f.ip]
+		if addrDial != want {
+			s.mismatch("L2:gate:addrdial:"+f.class, fmt.Sprintf("InterceptAddrDial(%s)=%v, model mem %v", f.text, addrDial, st.Mem), want, addrDial)
+		}
+		if accept != want {
+			s.mismatch("L2:gate:accept:"+f.class, fmt.Sprintf("InterceptAccept(remote %s)=%v, model mem %v", f.text, accept, st.Mem), want, accept)
+		}
+		// the statement's clauses per (peer, address form, direction), from the ledger only
+		for _, p := range peers {
+			o := oblOf(p, f.ip)
 			for _, dir := range []string{"out", "in"} {
 				var composed bool
 				if dir == "out" {
-					composed = peerDial[p] && addrDial[i]
+					composed = peerDial[p] && addrDial
 				} else {
-					composed = accept[i] && secIn[p]
+					composed = accept && secIn[p]
 				}
-				if len(in) > 0 && composed {
+				if o.in != "" && composed {
 					// confirm with the exact arguments before reporting
 					adm, _, dialed := vfC10Pipeline(g, dir, ids[p].id, f.addr)
 					if adm || dialed {
-						r := in[0]
+						r := o.in
 						s.mismatch(fmt.Sprintf("blocked-admitted:%s:%s:%s", dir, vfC10Kind(r), f.class),
 							fmt.Sprintf("rule %s (%s) is blocked (Block returned success, nothing since) yet a %sbound connection peer=%s addr=%s passes every gate consultation%s%s",
 								r, vfC10Rules[r].val, dir, p, f.text, map[bool]string{true: " and the transport dial is started", false: ""}[dialed && dir == "out"], after),
 							"refused", "admitted")
 					}
 				}
-				if len(in) == 0 && len(free) == 0 && !composed {
+				if o.in == "" && !o.free && !composed {
 					adm, at, _ := vfC10Pipeline(g, dir, ids[p].id, f.addr)
 					if !adm {
-						s.mismatch(fmt.Sprintf("unblocked-refused:%s:%s", dir, f.class),
+						cls := fmt.Sprintf("unblocked-refused:%s:%s", dir, f.class)
+						if !o.out {
+							cls = "L2:never-blocked-refused" // over-blocking of something never blocked: outside the statement
+						}
+						s.mismatch(cls,
 							fmt.Sprintf("no matching rule is blocked (every Unblock returned success / never blocked) yet a %sbound connection peer=%s addr=%s is refused at %s%s",
 								dir, p, f.text, at, after), "admitted", "refused@"+at)
 					}
 				}
 			}
 		}
+	}
+	s.res.Inc("gate_calls", 3*len(peers)+1+2*n)
+	if full {
+		s.res.Inc("full_matrix_evaluations", 1)
 	}
 }
 
@@ -969,7 +1008,7 @@ func (s *vfC10Sys) attStart(op vfh.Op) {
 	}
 	a := &vfC10Att{dir: op.S("dir"), peer: op.S("peer"), ip: op.S("ip"), tpt: op.S("tpt"), cont: map[string]bool{}}
 	a.form = cands[s.rnd.intn(len(cands))]
-	for _, r := range s.conf.matching(a.peer, a.ip) {
+	for _, r := range s.matching(a.peer, a.ip) {
 		a.cont[r] = true
 	}
 	s.att = a
@@ -1039,7 +1078,7 @@ func (s *vfC10Sys) attStep(op vfh.Op) {
 		case got && len(cont) > 0 && (admitted || dialed):
 			s.mismatch(fmt.Sprintf("blocked-admitted:%s:%s:%s", a.dir, vfC10Kind(cont[0]), a.form.class),
 				fmt.Sprintf("rule %v blocked at every consultation of the %sbound attempt peer=%s addr=%s, yet admitted=%v transport-dial=%v", cont, a.dir, a.peer, a.form.text, admitted, dialed), "refused", "admitted")
-		case !got && len(s.freeOrIn(a)) == 0:
+		case !got && len(s.freeOrIn(a)) == 0 && s.someOut(a):
 			s.mismatch(fmt.Sprintf("unblocked-refused:%s:%s", a.dir, a.form.class),
 				fmt.Sprintf("no matching rule blocked, %sbound attempt peer=%s addr=%s refused at %s", a.dir, a.peer, a.form.text, at), "admitted", "refused@"+at)
 		default:
@@ -1054,18 +1093,44 @@ func (s *vfC10Sys) attStep(op vfh.Op) {
 	}
 }
 
+func (s *vfC10Sys) matching(p, ip string) []string {
+	k := p + "|" + ip
+	if m, ok := s.matchMemo[k]; ok {
+		return m
+	}
+	if s.matchMemo == nil {
+		s.matchMemo = map[string][]string{}
+	}
+	m := s.conf.matching(p, ip)
+	s.matchMemo[k] = m
+	return m
+}
+
 func (s *vfC10Sys) freeOrIn(a *vfC10Att) []string {
 	var out []string
-	for _, r := range s.conf.matching(a.peer, a.ip) {
-		if s.must[r] != "out" {
+	for _, r := range s.matching(a.peer, a.ip) {
+		if s.must[r] != "out" && s.must[r] != "never" {
 			out = append(out, r)
 		}
 	}
 	return out
 }
 
+func (s *vfC10Sys) someOut(a *vfC10Att) bool {
+	for _, r := range s.matching(a.peer, a.ip) {
+		if s.must[r] == "out" {
+			return true
+		}
+	}
+	return false
+}
+
 // apply executes one model action on the real system
 func (s *vfC10Sys) apply(op vfh.Op) error {
+	switch op.Name() {
+	case "finish", "reopen", "write":
+		s.forceFull = true
+	}
 	switch op.Name() {
 	case "begin":
 		return s.begin(op.S("kind"), op.S("r"))
